@@ -20,6 +20,8 @@ structure WStable (Q : World → Prop) : Prop where
   lastRes : ∀ (w : World) a, Q w → Q { w with lastRes := a }
   handles : ∀ (w : World) a, Q w → Q { w with handles := a }
   setCurNet : ∀ (w : World) n, Q w → Q (w.setCurNet n)
+  /-- The transmission log is only ever extended, by an entry for the current transport. -/
+  log : ∀ (w : World) (f : LogEntry), f.net = w.nets.length → Q w → Q { w with log := w.log ++ [f] }
 
 section
 variable {Q : World → Prop} (hq : WStable Q)
@@ -39,7 +41,19 @@ theorem WStable.handleDisconnect (w : World) (h : Q w) : Q w.handleDisconnect :=
 theorem WStable.finishOp (w : World) (n : String) (op : Op) (h : Q w) : Q (w.finishOp n op) :=
   hq.finish _ _ (hq.handles _ _ h)
 
-theorem WStable.setWritten (w : World) (pkt : Flushed) (a c : Nat) (h : Q w) : Q (w.setWritten pkt a c) := hq.sess _ _ h
+omit hq in
+theorem doneFrame_net (w : World) (pkt : Flushed) : (w.doneFrame pkt).net = w.nets.length := by
+  unfold World.doneFrame
+  cases pkt with
+  | control a => rfl
+  | release id => simp only []; split <;> rfl
+  | retained id => simp only []; split <;> rfl
+
+theorem WStable.setWritten (w : World) (pkt : Flushed) (a c : Nat) (h : Q w) : Q (w.setWritten pkt a c) := by
+  unfold World.setWritten
+  split
+  · exact hq.sess _ _ (hq.log _ _ (doneFrame_net w pkt) h)
+  · exact hq.sess _ _ h
 theorem WStable.completeFlush (w : World) (pkt : Flushed) (now : Nat) (h : Q w) : Q (w.completeFlush pkt now) := hq.sess _ _ h
 
 theorem WStable.ioWrite (w : World) (bs : Bytes) (h : Q w) : Q (w.ioWrite bs).1 := by
